@@ -100,7 +100,9 @@ func (t *Text) GenerateOutput(textOnly bool) string {
 		}
 
 		srcRoot = domutil.GetParentElement(srcRoot)
-		if dom.TagName(srcRoot) == "body" {
+		if srcRoot == nil || dom.TagName(srcRoot) == "body" {
+			// Stop at <body>, or at the root when the document is a
+			// fragment without any block-level ancestor.
 			break
 		}
 
